@@ -48,12 +48,15 @@ class BuildError(Exception):
     pass
 
 
+PKG = {"comp": "hcomp", "full": "hfull", "nostd": "hnostd"}
+
+
 def build_dir(kind, build):
-    return os.path.join(TARGET, ("comp-" if kind == "comp" else "full-") + "-".join(build))
+    return os.path.join(TARGET, kind + "-" + "-".join(build))
 
 
 def binary(kind, build):
-    return os.path.join(build_dir(kind, build), "release", "hcomp" if kind == "comp" else "hfull")
+    return os.path.join(build_dir(kind, build), "release", PKG[kind])
 
 
 def build(kind, build_, jobs=None):
@@ -61,7 +64,7 @@ def build(kind, build_, jobs=None):
     ensure_vendor()
     tdir = build_dir(kind, build_)
     os.makedirs(tdir, exist_ok=True)
-    pkg = "hcomp" if kind == "comp" else "hfull"
+    pkg = PKG[kind]
     cmd = ["cargo", "build", "--release", "--offline", "-p", pkg, "--features", ",".join(build_), "--target-dir", tdir]
     if jobs:
         cmd += ["-j", str(jobs)]
@@ -182,6 +185,14 @@ def run_leg_sharded(pid, leg, build_, binpath, seed, tier, outdir):
                     os.remove(p)
             cmd = [binpath, leg["cmd"], "--seed", str(seed), "--tier", tier, "--out", out, "--shard", str(shard),
                    "--nshards", str(n), "--resume", str(resume), "--progress", prog] + [str(a) for a in leg.get("args", [])]
+            # classes with two attributed worker deaths in this shard are established violations: the
+            # worker skips further cases of them (each death costs a whole watchdog period)
+            dead = {}
+            for c in crashes:
+                dead[c["case_class"]] = dead.get(c["case_class"], 0) + 1
+            skip = [k for k, v in dead.items() if v >= 2 and k]
+            if skip:
+                cmd += ["--skip_classes", "||".join(skip)]
             if leg.get("repo_arg"):
                 cmd += ["--repo", "/repo"]
             remaining = deadline - time.time()
